@@ -26,7 +26,7 @@ def load_catalogue():
     cat = []
     for fn in sorted(os.listdir(HERE)):
         if fn.startswith('cat_') and fn.endswith('.py'):
-            ns = {}
+            ns = {'__file__': os.path.join(HERE, fn)}
             with open(os.path.join(HERE, fn)) as fh:
                 exec(compile(fh.read(), fn, 'exec'), ns)
             cat.extend(ns['CATALOGUE'])
@@ -34,7 +34,12 @@ def load_catalogue():
 
 
 def apply_edit(root, entry):
-    """entry['edits'] = [(relpath, old, new)], each `old` must occur exactly once"""
+    """entry['edits'] = [(relpath, old, new)], each `old` must occur exactly once; or entry['patch'] = unified diff file"""
+    if entry.get('patch'):
+        p = subprocess.run(['patch', '-p1', '-s', '-d', root, '-i', entry['patch']], capture_output=True, text=True)
+        if p.returncode:
+            return f'patch does not apply: {(p.stdout + p.stderr)[-200:]}'
+        return None
     for rel, old, new in entry['edits']:
         path = os.path.join(root, rel)
         with open(path, encoding='utf-8') as fh:
